@@ -185,8 +185,28 @@ def short(h):
     return ["%s(%s)" % (s["op"], ", ".join("%s=%s" % (k, v) for k, v in sorted(s["a"].items()) if k != "x" or "Convert" in s["op"])) for s in h]
 
 
+ARGS = {"SetTemplate": {"l"}, "AddUnitSystem": {"id", "l", "ro"}, "RemoveUnitSystem": {"id"}, "SetCurrent": {"id"}, "SetDefaultUnit": {"id", "c", "u"},
+        "RemoveCategory": {"id", "c"}, "SetDefaultUnitRemoved": {"id", "c", "u"}, "Register": {"o"}, "DropObject": {"o"}, "SetReadOnly": {"id", "ro"},
+        "IsReadOnly": {"id"}, "GetNewId": {"x"}, "GetCategoryDefaultUnit": {"c"}, "GetCurrentId": {"x"}, "GetUnitSystemById": {"id"},
+        "GetQuantityDefaultUnit": {"c", "u"}, "ConvertToCurrent": {"c", "u", "x"}, "ConvertScalarToCurrent": {"c", "u", "x"}}
+MALFORMED = [0]
+
+
+def well_formed(t):
+    """TLC 1.8 with several workers occasionally hands out a record value that lost a field (the race behind its 'Field name occurs multiple
+    times' exception, DESIGN 0.3): such a line is not a behaviour of the specification and is dropped (counted), never judged."""
+    try:
+        return all(set(s_["a"].keys()) == ARGS[s_["op"]] and set(s_["out"].keys()) >= {"k", "t", "x"} for s_ in t["h"]) and all(k_ in t for k_ in ("order", "maps", "current", "log"))
+    except Exception:  # noqa
+        return False
+
+
 def replay_one(t, rep, db, every_step=False):
     from barril.units import UnitDatabase
+
+    if not well_formed(t):
+        MALFORMED[0] += 1
+        return
 
     UnitDatabase.PushSingleton(db)
     try:
@@ -313,6 +333,9 @@ def main(tier):
     n += subclass_consistency(rep, db)
     rep.count(evaluations=n, nontrivial=n, traces=n)
     rep.cov["replayed_by_op"] = ops
+    rep.cov["malformed_lines_dropped"] = MALFORMED[0]
+    if MALFORMED[0] > max(20, n // 100):
+        raise common.MachineryError("%d emitted lines are malformed" % MALFORMED[0])
     rep.assumptions += ["pools: 3 ids (two of the form 'system N'), 2 categories, 4 units, 3 mapping literals passed as the same dict "
                         "object each time; SetCurrent selects registered systems or None (DESIGN 8)",
                         "with 16 workers the depth bound on the hidden history makes the explored set vary slightly at the last level"]
